@@ -162,7 +162,8 @@ def run (op : String) (a : Json) : Option (Except String Json) :=
   | "conv.de" => some do
       let e := mkEnv (getField a "freprs")
       let s ← getStr a "s"
-      let tys ← (← getArr a "types").mapM parseTy
+      let tys0 ← (← getArr a "types").mapM parseTy
+      let tys := if (getField a "sort") == Json.bool true then sortTys tys0 else tys0
       let kw ← parseKw (getField a "kw")
       pure <| match deserialize e s tys kw with
         | some v => ok (jVal v)
